@@ -198,4 +198,26 @@ theorem C05_cut_is_proper :
       | .ok o => o.sorted.size | _ => 0) = 24 := by
   decide +kernel
 
+/-- C14 / C05, whole sweep: whenever the sweeps of union and xor over one queue return, every event carries
+    the same in/out flags, the same edge type, the same point and the same partner under both — the
+    classification is a function of the geometry, not of the operation. -/
+theorem C14_flags_same_union_xor (ar : Arith) (cfg : Cfg) (fq : FQ) (sb cb : BBox) (o o' : SweepOut)
+    (h : subdivide ar cfg fq sb cb .union = .ok o) (h' : subdivide ar cfg fq sb cb .xor = .ok o') (j : Nat) :
+    o.arena.size = o'.arena.size ∧ o.sorted = o'.sorted
+    ∧ o.arena[j]!.inOut = o'.arena[j]!.inOut ∧ o.arena[j]!.otherInOut = o'.arena[j]!.otherInOut
+    ∧ o.arena[j]!.edgeType = o'.arena[j]!.edgeType
+    ∧ o.arena[j]!.point = o'.arena[j]!.point ∧ o.arena[j]!.other = o'.arena[j]!.other := by
+  have key := C05_union_xor_same_subdivision ar cfg fq sb cb
+  rw [h, h'] at key
+  simp only [exMap, Except.ok.injEq] at key
+  have ha : sA o.arena = sA o'.arena := by have := congrArg SweepOut.arena key; exact this
+  have hs : o.sorted = o'.sorted := by have := congrArg SweepOut.sorted key; exact this
+  have hsz : o.arena.size = o'.arena.size := by
+    have := congrArg Array.size ha
+    simpa [sA_size] using this
+  have hj := get_rel ha j
+  have f := fields_of_stripResult_eq hj
+  have het : o.arena[j]!.edgeType = o'.arena[j]!.edgeType := by have := congrArg Ev.edgeType hj; exact this
+  exact ⟨hsz, hs, f.2.2.2.2.1, f.2.2.2.2.2, het, f.1, f.2.2.2.1⟩
+
 end Gbo.Props
